@@ -481,6 +481,10 @@ func (m *Machine) equals(t types.Type, x, y value) *smt.Term {
 		return c.False
 	case *bigZ:
 		return c.Bool(x == y)
+	case *rtypeV:
+		return c.Bool(x == y)
+	case *rval:
+		return c.Bool(x == y)
 	case nil:
 		return c.Bool(y == nil)
 	}
@@ -1176,6 +1180,9 @@ func (m *Machine) concKey(k value, sb *strings.Builder) bool {
 		return true
 	case *closure:
 		fmt.Fprintf(sb, "C%p;", k)
+		return true
+	case *rtypeV:
+		fmt.Fprintf(sb, "T%p;", k)
 		return true
 	}
 	return false
